@@ -158,7 +158,10 @@ pub fn cross_version_copy_with(ctx: &Ctx, tier: Tier, only_validity: bool) -> (u
                 // the type the element has at the destination in the destination's version (it can differ from the source's)
                 let Some((dst_type, _)) = dst_pkgs.element_type().find_sub_element(pkg.element_name(), *vt as u32) else { continue };
                 let expected = spec_filter(&pkg_snap, dst_type, *vt);
-                match guarded(|| dst_pkgs.create_copied_sub_element(&pkg)) {
+                // both copy routes: the plain one and the positional one (appending), alternating over packages and version pairs
+                let use_at = (n as usize + crate::common::specgraph::version_index(*vs) + crate::common::specgraph::version_index(*vt)) % 2 == 1;
+                let at = dst_pkgs.content_item_count();
+                match guarded(|| if use_at { dst_pkgs.create_copied_sub_element_at(&pkg, at) } else { dst_pkgs.create_copied_sub_element(&pkg) }) {
                     Err(msg) => {
                         ctx.violation(format!("cross-version-copy|panic|{}", last_panic_loc()), w(json!({"msg": msg, "package": pkg.item_name()})));
                     }
